@@ -60,7 +60,7 @@ def ctor_fn_uses(facts, crates, adt_paths):
     return hit
 
 
-def infer(facts, crates=None):
+def infer(facts, crates=None, _debug=None):
     crates = [c for c in (crates or facts.crates) if c in facts.crates]
     ftype = {}
     forder = {}
@@ -123,6 +123,8 @@ def infer(facts, crates=None):
         for w in writers[f]:
             by_body.setdefault(w[0].path, (w[0], []))[1].append((f, w))
     thresholds = {}     # field -> thresholds seen in the functions that write it
+    own_thresholds = {}  # ... without the standard ones: constants of the writers themselves are tried first
+    STD_SET = set(intervals.STD_THRESHOLDS)
 
     reads = {}
     for path, (b, ws) in by_body.items():
@@ -173,6 +175,7 @@ def infer(facts, crates=None):
                 iv = Intervals(b)
                 for f, _w in ws:
                     thresholds.setdefault(f, set(intervals.STD_THRESHOLDS)).update(iv.thresholds)
+                    own_thresholds.setdefault(f, set()).update(set(iv.thresholds) - STD_SET)
                 for f, (_, bb, j, o) in ws:
                     tr = ftype[f]
                     if not iv.converged:
@@ -199,6 +202,8 @@ def infer(facts, crates=None):
         intervals.FIELD_RANGES.clear()
         return out
 
+    if _debug is not None:
+        _debug.update(writers=writers, fields=fields, ftype=ftype, F=F, bad=bad, own=own_thresholds, thresholds=thresholds)
     # start from the literal constants stored into each field (ascending iteration from below); a field with no
     # constant store starts unconstrained and can only be narrowed in the descending phase
     cur = {}
@@ -226,10 +231,27 @@ def infer(facts, crates=None):
                 tr = ftype[f]
                 if rnd >= 2:
                     lo, hi = n
+                    own = own_thresholds.get(f, ())
+                    if rnd == 2 and n[1] > a[1] and n[0] >= a[0]:
+                        # guess and check: the smallest constant of the field's own writers that is an inductive upper
+                        # bound for this field (the others held at their current candidates); verified again at the end
+                        picked = None
+                        for T in sorted(t for t in own if n[1] <= t <= tr[1])[:10]:
+                            c2 = dict(cur)
+                            c2[f] = (a[0], T)
+                            v2 = F(c2).get(f)
+                            if v2 is not None and fits(v2, c2[f]):
+                                picked = T
+                                break
+                        if picked is not None:
+                            cur[f] = (a[0], picked)
+                            continue
                     if n[0] < a[0]:
-                        lo = max([t for t in ths if t <= n[0]] + [tr[0]]) if rnd < 7 else tr[0]
+                        pref = [t for t in own if t <= n[0]]
+                        lo = (max(pref) if pref else max([t for t in ths if t <= n[0]] + [tr[0]])) if rnd < 7 else tr[0]
                     if n[1] > a[1]:
-                        hi = min([t for t in ths if t >= n[1]] + [tr[1]]) if rnd < 7 else tr[1]
+                        pref = [t for t in own if t >= n[1]]
+                        hi = (min(pref) if pref else min([t for t in ths if t >= n[1]] + [tr[1]])) if rnd < 7 else tr[1]
                     n = (max(lo, tr[0]), min(hi, tr[1]))
                 cur[f] = n
         if not changed:
@@ -251,12 +273,20 @@ def infer(facts, crates=None):
                 smaller = True
         if not smaller:
             break
-        # keep the step only if it is still inductive
-        w2 = F(nxt)
-        if all(fits(w2[f], nxt[f]) for f in fields if f in w2):
-            cur = nxt
+        # keep the step only if it is still inductive; a field whose narrowed candidate is not inductive goes back to its
+        # previous candidate (which may in turn un-prove others: repeat), the rest keep theirs
+        for _k in range(8):
+            w2 = F(nxt)
+            viol = [f for f in fields if f in w2 and not fits(w2[f], nxt[f])]
+            if not viol:
+                break
+            for f in viol:
+                nxt[f] = cur[f]
         else:
             break
+        if nxt == cur:
+            break
+        cur = nxt
     # final check (defensive): every write stays inside the candidate under the candidate's own assumption
     for _ in range(4):
         w = F(cur)
@@ -276,6 +306,8 @@ def infer(facts, crates=None):
 
 
 def register(facts, crates=None):
+    from . import retsum
+    retsum.register_getters(facts, crates)
     if getattr(facts, "_fieldinv", None) is None:
         facts._fieldinv = infer(facts, crates)
     intervals.FIELD_RANGES.clear()
